@@ -65,6 +65,10 @@ def gen(d, tier):
         return gen_table(d)
     kind = d.pick(["read", "test", "list", "args", "fill", "read", "test"])
     vs = [G.g_var(d, max_buf=d.pick([4, 8, 16, 64]), callbacks=False) for _ in range(d.weighted([(1, 0), (3, 1), (3, 2), (2, 3), (1, 4)]))]
+    for v in vs:
+        if v["type"] in (INT, UINT, HEX) and d.chance(1, 3):
+            # boundary bit patterns in variable storage (minimum / maximum of the width, -1, 0)
+            v["init"] = d.pick([b"\x00\x00\x00\x80", b"\xff\xff\xff\x7f", b"\xff\xff\xff\xff", b"\x00\x00\x00\x00", b"\x80\x00\x80\x00", b"\x00\x80\x00\x80"])[:max(1, min(4, v["size"]))].ljust(v["size"], b"\x80")
     name = d.pick([b"+R", b"+RD_", b"#u", b"+LONGER_NAME"])
     c = S.mk_cmd(name, "".join(k for k in "wrnt" if d.below(2)), vs, desc=(d.pick([b"d", b"description", b"a rather long description text"]) if d.below(2) else None))
     for k in "rt":
